@@ -221,7 +221,12 @@ def main():
         keep = []
         for fam in sorted({f for f, _ in edges}):
             members = [e for e in edges if e[0] == fam and not (fam == 'depth' and len(e[1]) > 6000)]
-            keep += members if len(members) <= 500 else rng.sample(members, 500)
+            if len(members) <= 500:
+                keep += members
+            else:
+                # every directive cut at end of input (no trailing newline) is always kept: the lexer pops its input there
+                must = [e for e in members if fam == 'directive' and not e[1].endswith(b'\n')][:900]
+                keep += must + rng.sample(members, 500)
         edges = keep
     cases += [('edge:' + fam, data, [fam]) for fam, data in edges]
 
